@@ -39,9 +39,10 @@ def optLookup : Bytes → UInt8 → Option Bool
 
 /-- `w[j]` for a C string `w`: the terminating NUL sits at `j = length`. -/
 def wchar (w : Bytes) (j : Nat) : Except Err UInt8 :=
-  if h : j < w.length then .ok w[j]
-  else if j = w.length then .ok 0
-  else .error (.ub "read past the terminating NUL of an argv string")
+  match w[j]? with
+  | some c => .ok c
+  | none => if j = w.length then .ok 0
+            else .error (.ub "read past the terminating NUL of an argv string")
 
 /-- `argv[i]` dereferenced (`argv[argc]` is NULL). -/
 def argvAt (argv : Argv) (i : Nat) : Except Err Bytes :=
